@@ -1,6 +1,6 @@
 (* Properties_C07.v — obligations of property C07 (progressive correction only ever improves a
    character cell). *)
-Require Import ObsRun Lemmas_TextProps Lemmas_Prog.
+Require Import ObsRun Lemmas_TextProps Lemmas_Prog Lemmas_ObsText.
 Local Open Scope Z_scope.
 
 (* one reception under progressive correction: the level of the cell never rises, and if the cell
@@ -73,5 +73,13 @@ Print Assumptions C07_ps_converges.
 (* the convergence theorem is stated for PS; PTYN and RT behave alike through C06_ptyn / C06_rt and
    C07_reception (not restated).  The per-step observer obs_C07 for all three texts is evaluated on
    the model (Example) and on the library (check). *)
+(* THE OBSERVER: with progressive correction on for a text, in every call that is not a reset and
+   not an A/B switch of that buffer, no level rises and a cell is rewritten only by a reception
+   addressed to it whose weighted level becomes the cell's level *)
+Theorem C07_observer : forall conv lut h s o ret, reach conv lut h s -> wf_op o ->
+  obs_C07 (o :: h) (snap_of s) (snap_of (fst (step conv lut s o))) (snd (step conv lut s o)) ret = true.
+Proof. exact obs_C07_holds. Qed.
+Print Assumptions C07_observer.
+
 Example C07_scenario : check_run_u (observer_u 7) scenario = true.
 Proof. vm_compute. reflexivity. Qed.
